@@ -1,3 +1,42 @@
-From Flodym Require Import Base.ND.
-Theorem placeholder : True. Proof. exact I. Qed.
-Print Assumptions placeholder.
+(* C02 — mass-balance and flow checks report exactly the violations.  Statements only. *)
+From Coq Require Import List Arith Bool QArith Qcanon.
+Import ListNotations.
+From Flodym Require Import Base.ND Np.Einsum Model.Dims Model.Array Model.Instances Model.System Proofs.C02Proofs.
+Local Open Scope nat_scope.
+
+(* For EVERY system graph (any processes, flows, stocks with or without process, processes without
+   any flow) and every tolerance: check_mass_balance succeeds exactly when every process has a
+   computable, NaN-free balance whose largest magnitude is within the tolerance. *)
+Theorem C02_mass_balance_success_iff :
+  forall (factor : Qc) (s : system) (t : Qc),
+  check_mass_balance_v sys_current factor s (Some t) = VSuccess
+  <-> forall p, p < sy_nproc s -> exists e, proc_error sys_current s p = Ok (Some e) /\ Qc_leb e t = true.
+Proof. exact check_mb_iff. Qed.
+Print Assumptions C02_mass_balance_success_iff.
+
+Theorem C02_nan_balance_is_never_success :
+  forall (factor : Qc) (s : system) (t : Qc) p,
+  p < sy_nproc s -> proc_error sys_current s p = Ok None ->
+  check_mass_balance_v sys_current factor s (Some t) <> VSuccess.
+Proof. exact nan_balance_fails. Qed.
+Print Assumptions C02_nan_balance_is_never_success.
+
+(* check_flows: flagged = the non-excepted flows holding a NaN, resp. an entry below minus the
+   default tolerance (factor x eps x largest finite flow or stock magnitude); never crashes *)
+Theorem C02_check_flows_flags_exactly :
+  forall factor s excepted,
+  let fl := filter (fun f => negb (excepted f)) (sy_flows s) in
+  let t := Qcmult factor (Qcmult eps64 (largest_magnitude s)) in
+  check_flows_v sys_current factor s excepted
+  = FResult (map f_name (filter has_nan fl)) (map f_name (filter (has_below t) fl)).
+Proof. exact check_flows_spec. Qed.
+Print Assumptions C02_check_flows_flags_exactly.
+
+(* non-vacuity: a two-process system with a balanced pair of flows succeeds, the same with one
+   flow doubled fails *)
+Example ex_C02 :
+  let d := [mk_dim 116 0 [0; 1]] in
+  let a v := mk_farr d [Some (q v 1%positive); Some (q 3%Z 1%positive)] in
+  check_mass_balance_v sys_current (q 100%Z 1%positive) (mk_system 2 [mk_flow 0 0 1 (a 2%Z); mk_flow 1 1 0 (a 2%Z)] []) (Some (q 1%Z 1000%positive)) = VSuccess
+  /\ check_mass_balance_v sys_current (q 100%Z 1%positive) (mk_system 2 [mk_flow 0 0 1 (a 4%Z); mk_flow 1 1 0 (a 2%Z)] []) (Some (q 1%Z 1000%positive)) = VFailed [0; 1].
+Proof. vm_compute. split; reflexivity. Qed.
